@@ -206,7 +206,10 @@ def check_fcm(ctx):
     p0 = [s for s in A.walk_local(fn) if isinstance(s, ast.Assign) and canon(s.targets[0]) == "P0"]
     okp = len(p0) == 1 and canon(p0[0].value) == canon(parse("P0.to(getattr(P, UNIT_ATTR_NAME))")) and [(canon(t), pol) for t, pol in A.guards_of(p0[0])] == [(canon(parse("hasattr(P, UNIT_ATTR_NAME)")), True)]
     ctx.check(R, fn, "P0 expressed in the unit of the period variable", okp, "P0 conversion: %s" % [A.unparse(s.value) for s in p0], key="P0-unit")
-    attrs = {dotted(s.targets[0]): canon(s.value) for s in A.walk_local(fn) if isinstance(s, ast.Assign) and (dotted(s.targets[0]) or "").startswith("dist._")}
+    # recorded on the object that is returned (whatever the local holding it is called)
+    rn = _returned_name(fn)
+    pre = (rn or "dist") + "._"
+    attrs = {"dist._" + dotted(s.targets[0])[len(pre):]: canon(s.value) for s in A.walk_local(fn) if isinstance(s, ast.Assign) and (dotted(s.targets[0]) or "").startswith(pre)}
     oka = attrs == {"dist._sigma_K0": "sigma_K0", "dist._max_K": "max_K", "dist._P0": "P0"}
     ctx.check(R, fn, "sigma_K0 / max_K / P0 recorded for the kernel", oka, "recorded attributes: %s" % attrs, key="attrs")
     qi = [d for d in fn.decorator_list if isinstance(d, ast.Call) and (A.call_name(d) or "").endswith("quantity_input")]
@@ -251,8 +254,9 @@ def check_wire(ctx):
         "P": "xu.with_unit(UniformLog('P', P_min.value, P_max.to_value(P_min.unit)), P_min.unit)",
     }
     got = {}
+    OUT = _returned_name(fn) or "out_pars"
     for s in A.walk_local(fn):
-        if isinstance(s, ast.Assign) and isinstance(s.targets[0], ast.Subscript) and canon(s.targets[0].value) == "out_pars" and A.str_const(s.targets[0].slice):
+        if isinstance(s, ast.Assign) and isinstance(s.targets[0], ast.Subscript) and canon(s.targets[0].value) == OUT and A.str_const(s.targets[0].slice):
             got[A.str_const(s.targets[0].slice)] = s
     for name, src in want.items():
         s = got.get(name)
@@ -265,24 +269,39 @@ def check_wire(ctx):
     ctx.check(R, fn, "angle prior is pymc_ext's uniform angle", len(ang) == 1 and ang[0].module == "pymc_ext.distributions", "angle imported from %s" % [a.module for a in ang], key="angle", nontrivial=False)
     fl = ctx.prog.func(PR, "default_linear_prior", R)
     got = {}
+    OUT = _returned_name(fl) or "out_pars"
+    loopvar = None
     for s in A.walk_local(fl):
-        if isinstance(s, ast.Assign) and isinstance(s.targets[0], ast.Subscript) and canon(s.targets[0].value) == "out_pars":
-            got[canon(s.targets[0].slice)] = s
+        if isinstance(s, ast.Assign) and isinstance(s.targets[0], ast.Subscript) and canon(s.targets[0].value) == OUT:
+            k_ = s.targets[0].slice
+            lp_ = A.enclosing(s, (ast.For,))
+            if isinstance(k_, ast.Name) and lp_ is not None and k_.id in A.loop_roles(lp_.target, lp_.iter) and not isinstance(s.value, ast.Subscript):
+                loopvar = k_.id
+                got["name"] = s
+            else:
+                got[canon(k_)] = s
     sK = got.get(canon(parse("'K'")))
     okK = sK is not None and canon(A.inline_temporaries(sK.value, sK, fl)) == canon(parse("xu.with_unit(FixedCompanionMass('K', P=model.named_vars.get('P', None), e=model.named_vars.get('e', None), sigma_K0=sigma_K0, P0=P0), sigma_K0.unit)"))
     ctx.check(R, sK or fl, "default prior of K", okK, "out_pars['K'] = %s" % (A.unparse(sK.value)[:120] if sK is not None else "missing"), key="l:K")
     sv = got.get("name")
-    okv = sv is not None and canon(sv.value) == canon(parse("xu.with_unit(pm.Normal(name, 0.0, sigma_v[name].value), sigma_v[name].unit)"))
+    NV = loopvar or "name"
+    okv = sv is not None and canon(sv.value) == canon(parse("xu.with_unit(pm.Normal(%s, 0.0, sigma_v[%s].value), sigma_v[%s].unit)" % (NV, NV, NV)))
     lp = A.enclosing(sv, (ast.For,)) if sv is not None else None
     if okv and lp is not None:
         it, tg = lp.iter, lp.target
         if isinstance(it, ast.Call) and A.call_name(it) == "enumerate" and len(it.args) == 1 and isinstance(tg, ast.Tuple) and len(tg.elts) == 2:
             it, tg = it.args[0], tg.elts[1]
         src = A.unpack_source(it.id, lp) if isinstance(it, ast.Name) else None
-        okv = isinstance(tg, ast.Name) and tg.id == "name" and src is not None and A.call_name(src[0]) == "validate_poly_trend" and src[1] == 1
+        okv = isinstance(tg, ast.Name) and tg.id == NV and src is not None and A.call_name(src[0]) == "validate_poly_trend" and src[1] == 1
     else:
         okv = False
     ctx.check(R, sv or fl, "default prior of v_i", okv, "out_pars[name] = %s" % (A.unparse(sv.value)[:100] if sv is not None else "missing"), key="l:v")
+
+
+def _returned_name(fn):
+    rets = [s for s in A.walk_local(fn) if isinstance(s, ast.Return)]
+    names = {s.value.id for s in rets if isinstance(s.value, ast.Name)}
+    return names.pop() if len(names) == 1 and len(rets) == len([s for s in rets if isinstance(s.value, ast.Name)]) else None
 
 
 def check_default(ctx):
@@ -304,7 +323,13 @@ def check_default(ctx):
     pd = A.param_default(fn, "P0")
     ctx.check(R, fn, "documented default P0 = 1 year", pd is not None and canon(pd) == canon(parse("1 * u.year")), "P0 default %s" % (A.unparse(pd) if pd is not None else None), key="default:P0", nontrivial=False)
     merged = [s for s in A.walk_local(fn) if isinstance(s, ast.Assign) and canon(s.targets[0]) == "pars" and isinstance(s.value, ast.Dict)]
-    okm = len(merged) == 1 and [canon(v) for v in merged[0].value.values] == ["nl_pars", "l_pars"] and all(k is None for k in merged[0].value.keys)
+    okm = len(merged) == 1 and all(k is None for k in merged[0].value.keys) and len(merged[0].value.values) == 2
+    if okm:
+        srcs = []
+        for v in merged[0].value.values:
+            r = A.inline_temporaries(v, merged[0], fn)
+            srcs.append(A.call_name(r) if isinstance(r, ast.Call) else None)
+        okm = srcs == ["default_nonlinear_prior", "default_linear_prior"]
     ctx.check(R, merged[0] if merged else fn, "nonlinear and linear defaults are merged into the prior", okm, "pars = %s" % (A.unparse(merged[0].value) if merged else None), key="default:merge", nontrivial=False)
 
 
